@@ -16,7 +16,10 @@ RULE = ('full product of {payload alphabet per length 2/20/32/40} x {P2PKH, P2SH
         'Address(hashed_data), public hash + script type (bytes and hex), raw locking script (bytes, hex, '
         'Output.parse), via Output() and via Transaction.add_output()}; public keys / HD keys x witness type x '
         'network; every ordered pair (address network, transaction network) x destination kind; near-miss '
-        'scripts of every template.  The reference computes address and script from (network, kind, version, '
+        'scripts of every template; call histories of length <= 2 (thorough 3) over 38 queries / state changes on ONE '
+        'HDKey or Key object (address() with every encoding x script type, foreign prefixes, (un)compressed, '
+        'address_obj, hash160, wif, public, as_dict, network_change, earlier outputs) followed by every way of '
+        'using that object, its address_obj or its address() string as destination.  The reference computes address and script from (network, kind, version, '
         'payload); a case is non-trivial when the library returned an output that was compared (distinct by '
         'network, kind, version, payload)')
 ASSUMPTIONS = [
@@ -29,6 +32,10 @@ ASSUMPTIONS = [
     'payload is accepted (P2PKH or P2WPKH) as long as script, address and type agree with each other',
     'for non-standard scripts no particular address/type is demanded; only: a script that is not a standard '
     'template must not be reported with a standard type together with a valid address of another script',
+    'key histories: queries do not change the destination a key stands for (its own compressed public key and '
+    'witness type on its current network; network_change moves the expectation to the new network); for an Address '
+    'object handed out by the key only identity and the inverse law are demanded, and an object the caller '
+    'requested with a script type / prefix that contradicts its encoding is classed apart',
     'an address string is foreign when no row of the golden table for the transaction network decodes it '
     '(testnet/testnet4/signet and bitcoin/regtest base58 share encodings and are accepted); for Address/HDKey '
     'objects refusal is demanded only in Transaction.add_output (Output() alone has no transaction; its '
